@@ -48,9 +48,11 @@ def SOURCES():
 
 # ------------------------------------------------------------------------------ program builders
 
-def sym_formula(c, nv, m, sense, kinds, vtype=None, cones=False):
+def sym_formula(c, nv, m, sense, kinds, vtype=None, cones=False, empty=()):
+    """`empty`: rows that carry no stored entry (what `x - x <= b` compiles to): `0 <= b` resp. `0 == b`"""
     A = sym_array(c, (m, nv), "A")
-    linear = lp.csr_matrix((A.reshape(-1), (np.repeat(np.arange(m), nv), np.tile(np.arange(nv), m))), shape=(m, nv))
+    keep = np.array([i not in empty for i in range(m) for _ in range(nv)], dtype=bool)
+    linear = lp.csr_matrix((A.reshape(-1)[keep], (np.repeat(np.arange(m), nv)[keep], np.tile(np.arange(nv), m)[keep])), shape=(m, nv))
     b = sym_array(c, (m,), "b")
     cost = sym_array(c, (nv,), "c")
     lb, ub = _bounds(c, kinds)
@@ -109,12 +111,12 @@ def _box_holds(bounds, x):
 
 def def_sol_lp():
     out = []
-    for nv, m in ((2, 2), (1, 1)):
+    for nv, m, empty in ((2, 2, ()), (1, 1, ()), (2, 2, (1,)), (2, 2, (0, 1))):
         for sense in itertools.product([0, 1], repeat=m):
-            for kinds in itertools.product(["free", "lb", "box", "fixed"], repeat=nv):
+            for kinds in (itertools.product(["free", "lb", "box", "fixed"], repeat=nv) if not empty else [("lb", "box"), ("free", "ub")]):
                 for status in (0, 2):
-                    def setup(c, nv=nv, m=m, sense=sense, kinds=kinds, status=status):
-                        F = sym_formula(c, nv, m, sense, kinds)
+                    def setup(c, nv=nv, m=m, sense=sense, kinds=kinds, status=status, empty=empty):
+                        F = sym_formula(c, nv, m, sense, kinds, empty=empty)
                         fake = FakeOptLP(c, status)
                         return {"F": F, "fake": fake, "before": D.snapshot_prog(F), "x": arr([c.fresh_real(f"x{j}_") for j in range(nv)]),
                                 "status": status}
@@ -150,7 +152,7 @@ def def_sol_lp():
                     obs, _ = check_function("rsome.lp:def_sol", setup, call,
                                             [post("arguments-describe-the-compiled-program", same_program), post("formula-untouched", frame),
                                              post("status-handling", outcome)], mode="D",
-                                            label=f"LP nv={nv} m={m} sense={sense} bounds={'/'.join(kinds)} status={status}", bounded=True)
+                                            label=f"LP nv={nv} m={m} sense={sense} bounds={'/'.join(kinds)} status={status}" + (f" empty-rows={empty}" if empty else ""), bounded=True)
                     out += obs
     return out
 
@@ -268,10 +270,13 @@ def ecos_cases():
             configs.append((2, 2, sense, kinds, None, False))
     configs += [(4, 2, (0, 1), ("free", "lb", "free", "box"), None, True), (4, 1, (1,), ("lb", "free", "free", "ub"), None, True),
                 (2, 1, (0,), ("box", "lb"), "BC", False), (2, 1, (1,), ("box", "box"), "IB", False)]
-    for nv, m, sense, kinds, vt, cones in configs:
+    configs = [cf + ((),) for cf in configs]
+    configs += [(2, 2, (0, 0), ("lb", "box"), None, False, (1,)), (2, 2, (1, 0), ("free", "ub"), None, False, (0,)),
+                (4, 2, (0, 1), ("free", "lb", "free", "box"), None, True, (0, 1))]
+    for nv, m, sense, kinds, vt, cones, empty in configs:
         for flag in (0, 10, 1, -2):
-            def setup(c, nv=nv, m=m, sense=sense, kinds=kinds, vt=vt, cones=cones, flag=flag):
-                F = sym_formula(c, nv, m, sense, kinds, vt, cones)
+            def setup(c, nv=nv, m=m, sense=sense, kinds=kinds, vt=vt, cones=cones, flag=flag, empty=empty):
+                F = sym_formula(c, nv, m, sense, kinds, vt, cones, empty=empty)
                 return {"F": F, "fake": FakeEcos(c, flag), "before": D.snapshot_prog(F), "x": arr([c.fresh_real(f"x{j}_") for j in range(nv)]), "flag": flag}
 
             def call(ns):
@@ -322,7 +327,7 @@ def ecos_cases():
             obs, _ = check_function("rsome.eco_solver:solve", setup, call,
                                     [post("arguments-describe-the-compiled-program", same_program), post("formula-untouched", frame),
                                      post("status-handling", outcome)], mode="D",
-                                    label=f"nv={nv} m={m} sense={sense} bounds={'/'.join(kinds)} vtype={vt} cones={cones} flag={flag}", bounded=True)
+                                    label=f"nv={nv} m={m} sense={sense} bounds={'/'.join(kinds)} vtype={vt} cones={cones} flag={flag}" + (f" empty-rows={empty}" if empty else ""), bounded=True)
             out += obs
     return out
 
@@ -398,11 +403,26 @@ class FakeOrtSolver:
         self.vars.append(v)
         return v
 
+    def BoolVar(self, name):
+        return self.IntVar(0.0, 1.0, name)
+
     def Minimize(self, e):
         self.obj = e
 
     def Add(self, con):
         self.cons.append(con)
+
+    def Constraint(self, lb=-math.inf, ub=math.inf, name=""):
+        """a row without coefficients: lb <= 0 <= ub"""
+        if not _isinf(lb, -1):
+            self.cons.append(("<=", LinExpr({}, lb), 0.0))
+        if not _isinf(ub, 1):
+            self.cons.append(("<=", LinExpr({}, 0.0), ub))
+        return Rec()
+
+    @staticmethod
+    def infinity():
+        return math.inf
 
     def Solve(self):
         return self.status
@@ -436,11 +456,15 @@ def ortools_cases():
     for sense in itertools.product([0, 1], repeat=2):
         for kinds in (("free", "free"), ("lb", "ub"), ("box", "fixed")):
             configs.append((sense, kinds, None))
-    configs += [((0, 1), ("box", "lb"), "BC"), ((1, 0), ("box", "box"), "IB"), ((0, 0), ("free", "ub"), "BI")]
-    for sense, kinds, vt in configs:
+    configs = [cf + ((),) for cf in configs]
+    configs += [((0, 1), ("box", "lb"), "BC", ()), ((1, 0), ("box", "box"), "IB", ()), ((0, 0), ("free", "ub"), "BI", ())]
+    # rows without any stored entry (x - x <= b): the row still constrains the program (infeasible when b < 0)
+    configs += [((0, 0), ("lb", "ub"), None, (1,)), ((0, 1), ("free", "box"), None, (1,)), ((1, 0), ("box", "box"), "IC", (0,)),
+                ((0, 0), ("lb", "lb"), None, (0, 1))]
+    for sense, kinds, vt, empty in configs:
         for status in (0, 2):
-            def setup(c, sense=sense, kinds=kinds, vt=vt, status=status):
-                F = sym_formula(c, 2, 2, sense, kinds, vt)
+            def setup(c, sense=sense, kinds=kinds, vt=vt, status=status, empty=empty):
+                F = sym_formula(c, 2, 2, sense, kinds, vt, empty=empty)
                 return {"F": F, "fake": FakePywraplp(status), "before": D.snapshot_prog(F), "x": arr([c.fresh_real(f"x{j}_") for j in range(2)]),
                         "status": status}
 
@@ -486,8 +510,262 @@ def ortools_cases():
             obs, _ = check_function("rsome.ort_solver:solve", setup, call,
                                     [post("arguments-describe-the-compiled-program", same_program), post("formula-untouched", frame),
                                      post("status-handling", outcome)], mode="D",
-                                    label=f"sense={sense} bounds={'/'.join(kinds)} vtype={vt} status={status}", bounded=True)
+                                    label=f"sense={sense} bounds={'/'.join(kinds)} vtype={vt} status={status}" + (f" empty-rows={empty}" if empty else ""), bounded=True)
             out += obs
+    return out
+
+
+# ------------------------------------------------------------------------------ Gurobi
+
+class GSub:
+    """x[idx] of the recorded MVar"""
+    __array_ufunc__ = None
+
+    def __init__(self, idx):
+        self.idx = [int(i) for i in np.asarray(idx).reshape(-1)]
+
+    def __matmul__(self, o):
+        if isinstance(o, GSub):                                   # x[a] @ x[b]
+            if len(self.idx) != len(o.idx):
+                raise ValueError("shape mismatch")
+            return GQuad([(1.0, i, j) for i, j in zip(self.idx, o.idx)])
+        M = views.dense(o) if not isinstance(o, np.ndarray) else o
+        if M.shape[0] != len(self.idx):
+            raise ValueError("shape mismatch")
+        return GRow(self.idx, M)
+
+    def __rmatmul__(self, o):
+        o = np.asarray(o, dtype=object).reshape(-1)
+        if len(o) != len(self.idx):
+            raise ValueError("shape mismatch")
+        return GLin({i: v for i, v in zip(self.idx, o)})
+
+
+class GRow:
+    def __init__(self, idx, M):
+        self.idx, self.M = idx, M
+
+    def __matmul__(self, o):
+        if not isinstance(o, GSub) or self.M.shape[1] != len(o.idx):
+            raise ValueError("shape mismatch")
+        return GQuad([(self.M[a, b], i, j) for a, i in enumerate(self.idx) for b, j in enumerate(o.idx)
+                      if isinstance(self.M[a, b], SymReal) or self.M[a, b] != 0])
+
+
+class GQuad:
+    def __init__(self, terms):
+        self.terms = terms
+
+    def value(self, x):
+        return sum((k * x[i] * x[j] for k, i, j in self.terms), 0.0)
+
+    def __le__(self, o):
+        return ("qc", self, o)
+
+
+class GLin:
+    def __init__(self, terms):
+        self.terms = terms
+
+
+class GMVar(GSub):
+    def __init__(self, n, lb, ub, vtype):
+        super().__init__(range(n))
+        self.n, self.lb, self.ub, self.vtype = n, lb, ub, vtype
+        self.rc = np.zeros(n)
+
+    def __getitem__(self, idx):
+        return GSub(np.arange(self.n)[idx])
+
+
+class FakeGrbModel:
+    def __init__(self, c, status):
+        self.c, self.Status, self.Runtime = c, status, 0.0
+        self.mvars, self.mcons, self.qcons, self.obj, self.params, self.optimized = [], [], [], None, {}, 0
+
+        class P:
+            LogToConsole = 1
+            TimeLimit = 1e100
+        self.Params = P()
+
+    def addMVar(self, n, lb=0.0, ub=math.inf, vtype="C"):
+        v = GMVar(int(n), lb, ub, vtype)
+        self.mvars.append(v)
+        return v
+
+    def addMConstr(self, A, x, sense, b):
+        if not isinstance(x, GMVar) or A.shape[1] != x.n or A.shape[0] != len(b):
+            raise ValueError("shape mismatch")
+        self.mcons.append((A, sense, b))
+        r = Rec()
+        r.pi = np.zeros(A.shape[0])
+        return r
+
+    def addConstr(self, con):
+        self.qcons.append(con)
+
+    def setObjective(self, e):
+        self.obj = e
+
+    def setParam(self, k, v):
+        self.params[k] = v
+
+    def optimize(self):
+        self.optimized += 1
+
+    @property
+    def ObjVal(self):
+        if self.Status != 2:
+            raise AttributeError("ObjVal")
+        return self.c.fresh_real("gobj")
+
+    def getAttr(self, name):
+        if self.Status != 2:
+            raise AttributeError(name)
+        return [self.c.fresh_real(f"gx{i}_") for i in range(self.mvars[0].n)]
+
+
+class FakeGp:
+    def __init__(self, c, status):
+        self.c, self.status, self.made = c, status, []
+
+    def Model(self):
+        m = FakeGrbModel(self.c, self.status)
+        self.made.append(m)
+        return m
+
+
+def gurobi_cases():
+    """grb_solver.solve against a recorder of the gurobipy matrix API (Model/addMVar/addMConstr/addConstr/setObjective).
+    Gurobi reads `x_l'x_l <= x_h*x_h` as a second-order cone only for x_h >= 0: that is a precondition on the compiled
+    program (every cone head has a non-negative lower bound), checked on the compiled programs in job cone-heads."""
+    try:
+        import rsome.grb_solver as grb_mod
+    except Exception:                                             # gurobipy not installed: nothing to check
+        return []
+    out = []
+    configs = []
+    for sense in itertools.product([0, 1], repeat=2):
+        for kinds in (("free", "free"), ("lb", "ub"), ("box", "fixed")):
+            configs.append((2, 2, sense, kinds, None, False, ()))
+    configs += [(3, 2, (0, 1), ("lb", "free", "box"), None, True, ()), (3, 1, (1,), ("lb", "free", "ub"), None, True, ()),
+                (2, 1, (0,), ("box", "lb"), "BC", False, ()), (2, 1, (1,), ("box", "box"), "IB", False, ()),
+                (2, 2, (0, 0), ("lb", "box"), None, False, (1,)), (2, 2, (1, 0), ("free", "ub"), None, False, (0,)),
+                (2, 2, (0, 0), ("lb", "box"), None, False, ()), (2, 2, (1, 1), ("lb", "box"), "CI", False, ())]
+    for nv, m, sense, kinds, vt, cones, empty in configs:
+        for status in (2, 3):                                     # GRB.OPTIMAL, GRB.INFEASIBLE
+            def setup(c, nv=nv, m=m, sense=sense, kinds=kinds, vt=vt, cones=cones, status=status, empty=empty):
+                F = sym_formula(c, nv, m, sense, kinds, vt, cones, empty=empty)
+                if cones:
+                    c.assume(F.lb[0] >= 0)
+                if type(F) is not socp.SOCProg and not cones:
+                    F = lp.LinProg(F.linear, F.const, F.sense, F.vtype, F.ub, F.lb, F.obj)
+                return {"F": F, "fake": FakeGp(c, status), "before": D.snapshot_prog(F), "x": arr([c.fresh_real(f"x{j}_") for j in range(nv)]),
+                        "status": status}
+
+            def call(ns):
+                real = grb_mod.gp
+                grb_mod.gp = ns["fake"]
+                try:
+                    return grb_mod.solve(ns["F"], display=False)
+                finally:
+                    grb_mod.gp = real
+
+            def same_program(ns, sol):
+                made = ns["fake"].made
+                if len(made) != 1 or len(made[0].mvars) != 1 or made[0].optimized != 1:
+                    return False
+                g = made[0]
+                v = g.mvars[0]
+                F, x = ns["F"], ns["x"]
+                if v.n != len(x) or list(v.vtype) != list(F.vtype):
+                    return False
+                terms = []
+                for j in range(v.n):
+                    lo, hi = np.asarray(v.lb, dtype=object).reshape(-1)[j], np.asarray(v.ub, dtype=object).reshape(-1)[j]
+                    if not _isinf(lo, -1):
+                        terms.append(p_le(lo, x[j]))
+                    if not _isinf(hi, 1):
+                        terms.append(p_le(x[j], hi))
+                nrows = 0
+                for A, sn, b in g.mcons:
+                    if sn not in ("=", "<"):
+                        return False
+                    terms.append(_rows_hold(A, b, x, sn == "="))
+                    nrows += A.shape[0]
+                if nrows != F.linear.shape[0]:
+                    return False
+                for tag, l, r in g.qcons:
+                    terms.append(p_le(l.value(x), r.value(x)))
+                rec = p_and(*terms)
+                if g.obj is None or not isinstance(g.obj, GLin):
+                    return False
+                obj = p_and(*[p_eq(g.obj.terms.get(i, 0.0), F.obj[i]) for i in range(v.n)])
+                return p_and(p_iff(rec, D.feas(F, x)), obj)
+
+            def frame(ns, sol):
+                return D.prog_unchanged(ns["before"], ns["F"])
+
+            def outcome(ns, sol):
+                if ns["status"] != 2:
+                    return isinstance(sol, lp.Solution) and sol.x is None and isinstance(sol.objval, float) and math.isnan(sol.objval)
+                return isinstance(sol, lp.Solution) and sol.x is not None and len(sol.x) == len(ns["F"].obj)
+            obs, _ = check_function("rsome.grb_solver:solve", setup, call,
+                                    [post("arguments-describe-the-compiled-program", same_program), post("formula-untouched", frame),
+                                     post("status-handling", outcome)], mode="D",
+                                    label=f"nv={nv} m={m} sense={sense} bounds={'/'.join(kinds)} vtype={vt} cones={cones} status={status}" + (f" empty-rows={empty}" if empty else ""),
+                                    bounded=True)
+            out += obs
+    return out
+
+
+def cone_heads():
+    """Postcondition of the formulation layers that grb_solver's SOC encoding relies on (and that makes the
+    quadratic form convex): in every compiled program each second-order cone's head variable has lower bound >= 0."""
+    from . import c08
+    out = []
+    def dro_model(kind):
+        def build(c):
+            from ..harness import dro
+            m = dro.Model(2)
+            x = m.dvar(2)
+            z = m.rvar(2)
+            u = m.rvar()
+            f = m.ambiguity()
+            r = c.fresh_real("r")
+            c.assume(r > 0)
+            if kind == "ball-support":
+                f.suppset(rsome.norm(z, 2) <= r, u == 0)
+                f.exptset(rsome.E(z) == 0)
+            elif kind == "wasserstein":
+                zh = np.array([[0.5, -0.25], [0.0, 1.0]])
+                for s in range(2):
+                    f[s].suppset(z <= 2, z >= -2, rsome.norm(z - zh[s], 2) <= u)
+                f.exptset(rsome.E(u) <= r)
+            else:
+                f.suppset(z <= 1, z >= -1, u == 0)
+                f.probset(rsome.norm(m.p - 0.5, 2) <= r)
+            m.minsup(rsome.E(rsome.maxof((x * z).sum(), x[0] - 2 * x[1])), f)
+            m.st(rsome.norm(x, 2) <= 1.5)
+            m.do_math()
+            return m.ro_model.rc_model, False
+        return build
+    builders = {k: v for k, v in c08.CONIC.items() if not k.startswith("mix-")}     # mix-* are ambiguity-set programs, never handed to a solver
+    builders.update({f"dro-{k}": dro_model(k) for k in ("ball-support", "wasserstein", "prob-norm2")})
+    for name in builders:
+        def setup(c, name=name):
+            layer, objflag = builders[name](c)
+            return {"layer": layer}
+
+        def heads(ns, P):
+            t = []
+            for q in getattr(P, "qmat", []):
+                lo = P.lb[int(q[0])]
+                t.append(False if _isinf(lo, -1) else p_le(0.0, lo))
+            return p_and(*t)
+        obs, _ = check_function("rsome.gcp:Model.do_math(primal)", setup, lambda ns: ns["layer"].primal if ns["layer"].primal is not None else ns["layer"].do_math(),
+                                [post("every-cone-head-has-a-non-negative-lower-bound", heads)], mode="D", label=name, bounded=True, max_paths=600)
+        out += obs
     return out
 
 
@@ -567,8 +845,8 @@ def plumbing():
 
 def jobs(tier):
     return [{"name": "def_sol-lp", "kind": "lp"}, {"name": "def_sol-milp", "kind": "milp"}, {"name": "ecos", "kind": "ecos"},
-            {"name": "ortools", "kind": "ort"}, {"name": "plumbing", "kind": "plumbing"}]
+            {"name": "ortools", "kind": "ort"}, {"name": "gurobi", "kind": "grb"}, {"name": "cone-heads", "kind": "heads"}, {"name": "plumbing", "kind": "plumbing"}]
 
 
 def run_job(job):
-    return {"lp": def_sol_lp, "milp": def_sol_milp, "ecos": ecos_cases, "ort": ortools_cases, "plumbing": plumbing}[job["kind"]]()
+    return {"lp": def_sol_lp, "milp": def_sol_milp, "ecos": ecos_cases, "ort": ortools_cases, "grb": gurobi_cases, "heads": cone_heads, "plumbing": plumbing}[job["kind"]]()
